@@ -205,7 +205,7 @@ fn plant(b: &mut Built, ch: &mut Ch) -> Plan {
     } else if which >= 4 {
         // (or, instead:) the first statement is `let hq = <template>;` where the template's draws are known whatever
         // values are drawn: every operand of a unary or binary operator is evaluated (only `ite` is lazy), the smallest
-        // legal bound 2 included, so the run's log must begin with exactly these draws, in this order.
+        // legal bound 2 included, so the run's log must begin with exactly these draws (compared as a multiset: the order of operand evaluation is not stated anywhere).
         let r = |b: u64| Expr::Random(Box::new(Expr::lit(b)));
         let h = HEAD_BOUND;
         let (e, bounds): (Expr, Vec<u64>) = match ch.upto(15) {
@@ -274,7 +274,7 @@ impl Property for C17 {
         "C17"
     }
     fn rule(&self) -> &'static str {
-        "profile `random`: flow programs with random(e) in row entries, let, bounds, ite conditions and branches, nested in its own argument, in a virtual signal; bounds >= 2 by construction (2, small, (e&7)+2, 2^k up to 2^62); resetRandom at any statement position; seeds {0, 1, u64::MAX, random} forced through the seed hook; planted probes: `(random(B_r))` in a 64-bit input and `bits(2, random(B_r+1))` in two 1-bit inputs with a bound unique to the source row r (half of such rows keep their X/C entries: the g items of one evaluation then all show the one value drawn for it), `bits(0, random(Z_r))` in front of one row in six (no column, still one draw per evaluation), a planted `repeat(3)` over a row of literals and `(ite(1, random(900007), 0))` (three evaluations, three draws), `let dq = ((random(600011)) / 0);` as first statement where no reset construct is planted (one error item, one draw: the dividend is evaluated; the caller goes on) or instead `let hq = <template>;` with one of twelve templates whose draws are known whatever is drawn (`random(2)`, `0 & random(H)`, `0 * random(H)`, `~0 | random(H)`, `random(2) + random(3)`, `-random(2)`, `!random(2)`, `0 >> random(H)`, `0 % random(H)`, `ite(random(2), random(H), random(H))`, ...: every operand of an operator is evaluated, the smallest legal bound included, so the log must begin with exactly those bounds), `declare VR = random(999983)`, a `row / resetRandom; / row` triple with random(500009) at the top (or instead, as the very first statements of the text, `loop(rz, 2)` / `resetRandom;` / such a row / `end loop`, where no `random` stands before the `resetRandom;` in the text: both passes show the same value), a body-less `loop(ez, (random(700001) & 1))` as first statement (its bound is evaluated once on entry: exactly one draw with that bound), a body-less `while((random(S) & 1))` (one case in six: left when a draw is even and only then), a `while` counting a variable down from 2 whose condition draws (evaluated for 2, 1, 0: exactly three draws), and random(7919) in unselected branches of constant-condition ite. Oracle (self-consistent, on the crate's own event log): every random evaluation is exactly one generator draw (GenDraw, Draw pairs), 0 <= value < bound; after every Reset the values repeat those drawn from the start of the run over the longest common prefix of the bound sequences; the same seed gives the same log; no draw with bound 7919 (lazy ite); for each probed row the number of draws with its bound equals the number of its evaluations (items / g, the last one possibly cut by the cap), and each item shows exactly the value drawn for its evaluation (resp. its two low bits): one draw per evaluation, used as if it were a literal; VR is drawn once per checked row and shows the drawn value; and a straight-line control program that performs the same sequence of random(bound) / resetRandom with the same seed draws exactly the same values (the draws are those of the run's generator, in order). In a third of the cases two or three iterators over the same test are alive at once and stepped alternately by a generated schedule (same seed, same script): each yields exactly the items of the run on its own (every run has its own generator). Non-trivial: >= 2 draws and (a reset followed by a draw, or a checked probe, or a lazy sentinel present); distinct by source + signals + driver + seed."
+        "profile `random`: flow programs with random(e) in row entries, let, bounds, ite conditions and branches, nested in its own argument, in a virtual signal; bounds >= 2 by construction (2, small, (e&7)+2, 2^k up to 2^62); resetRandom at any statement position; seeds {0, 1, u64::MAX, random} forced through the seed hook; planted probes: `(random(B_r))` in a 64-bit input and `bits(2, random(B_r+1))` in two 1-bit inputs with a bound unique to the source row r (half of such rows keep their X/C entries: the g items of one evaluation then all show the one value drawn for it), `bits(0, random(Z_r))` in front of one row in six (no column, still one draw per evaluation), a planted `repeat(3)` over a row of literals and `(ite(1, random(900007), 0))` (three evaluations, three draws), `let dq = ((random(600011)) / 0);` as first statement where no reset construct is planted (one error item, one draw: the dividend is evaluated; the caller goes on) or instead `let hq = <template>;` with one of twelve templates whose draws are known whatever is drawn (`random(2)`, `0 & random(H)`, `0 * random(H)`, `~0 | random(H)`, `random(2) + random(3)`, `-random(2)`, `!random(2)`, `0 >> random(H)`, `0 % random(H)`, `ite(random(2), random(H), random(H))`, ...: every operand of an operator is evaluated, the smallest legal bound included, so the log must begin with exactly those bounds, in whatever order), `declare VR = random(999983)`, a `row / resetRandom; / row` triple with random(500009) at the top (or instead, as the very first statements of the text, `loop(rz, 2)` / `resetRandom;` / such a row / `end loop`, where no `random` stands before the `resetRandom;` in the text: both passes show the same value), a body-less `loop(ez, (random(700001) & 1))` as first statement (its bound is evaluated once on entry: exactly one draw with that bound), a body-less `while((random(S) & 1))` (one case in six: left when a draw is even and only then), a `while` counting a variable down from 2 whose condition draws (evaluated for 2, 1, 0: exactly three draws), and random(7919) in unselected branches of constant-condition ite. Oracle (self-consistent, on the crate's own event log): every random evaluation is exactly one generator draw (GenDraw, Draw pairs), 0 <= value < bound; after every Reset the values repeat those drawn from the start of the run over the longest common prefix of the bound sequences; the same seed gives the same log; no draw with bound 7919 (lazy ite); for each probed row the number of draws with its bound equals the number of its evaluations (items / g, the last one possibly cut by the cap), and each item shows exactly the value drawn for its evaluation (resp. its two low bits): one draw per evaluation, used as if it were a literal; VR is drawn once per checked row and shows the drawn value; and a straight-line control program that performs the same sequence of random(bound) / resetRandom with the same seed draws exactly the same values (the draws are those of the run's generator, in order). In a third of the cases two or three iterators over the same test are alive at once and stepped alternately by a generated schedule (same seed, same script): each yields exactly the items of the run on its own (every run has its own generator). Non-trivial: >= 2 draws and (a reset followed by a draw, or a checked probe, or a lazy sentinel present); distinct by source + signals + driver + seed."
     }
     fn cases(&self, tier: Tier) -> u64 {
         match tier {
@@ -375,12 +375,15 @@ impl Property for C17 {
         }
         if let Some(bounds) = &plan.head_probe {
             out.class("head-probe-checked");
-            let got: Vec<i64> = all.iter().take(bounds.len()).map(|(b, _)| *b).collect();
-            let want: Vec<i64> = bounds.iter().map(|b| *b as i64).collect();
+            // (compared as multisets: in which order the operands of an operator are evaluated is nobody's statement)
+            let mut got: Vec<i64> = all.iter().take(bounds.len()).map(|(b, _)| *b).collect();
+            let mut want: Vec<i64> = bounds.iter().map(|b| *b as i64).collect();
+            got.sort();
+            want.sort();
             if !real.items.is_empty() && got != want {
                 out.fail(
                     "c17:head-probe-draws",
-                    format!("the program starts with a `let hq = ..;` whose evaluation makes draws with the bounds {want:?}, in this order, whatever values are drawn; the run's log begins with draws of bounds {got:?}"),
+                    format!("the program starts with a `let hq = ..;` whose evaluation makes draws with the bounds {want:?} (in whatever order), whatever values are drawn; the run's log begins with draws of bounds {got:?}"),
                 );
                 return out;
             }
